@@ -200,7 +200,7 @@ class _MatEval:
         self.name = name
 
     def ev(self, e):
-        if isinstance(e, ast.Name) and e.id == self.name:
+        if isinstance(e, ast.Name) and (e.id == self.name or (isinstance(self.name, (set, frozenset)) and e.id in self.name)):
             return self.R
         if isinstance(e, ast.Attribute) and e.attr == 'T':
             m = self.ev(e.value)
@@ -264,6 +264,20 @@ def _rot_general_block(f):
 
 
 def check_log_general(run, rule='R19'):
+    """General branch of the SO(3) logarithm, decided on the evaluated return of every path through the branch (all locals
+    substituted, so the names and the order of the intermediate assignments do not matter):
+
+        result = U * TH   (or vex of it),   U = N / D  (unit skew matrix)   or   U = N on the path where D == 0 was found
+
+    * angle   TH = acos(E) or atan2(S, E): E composes through Rodrigues' formula to cos(theta), S to sin(theta)
+    * axis    N composes to sin(theta) * skew(w)
+    * divisor D is sin(TH) or the same expression as S
+    * guards  the half-turn test |trace(R) + 1| < tol has failed on every path to the division (sin = 0, N = 0 there); and the
+              divisor itself is known to be non-zero: a test on D (D > 0, D != 0, D > tol, abs(D) > tol) holds on the path.  The
+              identity test does NOT do that for TH = acos((trace(R) - 1) / 2): iseye() excludes |R - I| < 10 eps only, while the
+              cosine rounds to exactly 1 -- acos gives exactly 0 and the division is 0 / 0 -- for every rotation angle below
+              ~1.5e-8 (found on the pinned tree: trlog(trexp([0, 0, 1e-9])) is [nan nan nan])."""
+    from .r16_tables import Ctx, sl_eval
     f = run.prog.func('base/transforms3d:trlog')
     fi = FuncInfo.of(f)
     blk = _rot_general_block(f)
@@ -271,86 +285,165 @@ def check_log_general(run, rule='R19'):
         run.error('R19: trlog: general branch of the SO(3) logarithm not found')
         return
     Rm, K = rodrigues_matrix()
-    me = _MatEval(Rm)
     c, s = Poly.atom('c'), Poly.atom('s')
-    from ..cfg import pure_locals, _subst_pure
+    cx = Ctx(run, f.key)
+    # the matrix argument under the isrot test: R = T (or T itself)
+    from ..cfg import pure_locals, _subst_pure, CFG, must_facts
     pl = {k: canon(fi, v, inline=False) for k, v in pure_locals(f.node).items()}
-    defs = {}
-    for st in blk:
-        if isinstance(st, ast.Assign) and isinstance(st.targets[0], ast.Name):
-            # single-definition locals such as trace = np.trace(R) are substituted (theta itself is kept as the angle atom)
-            defs[st.targets[0].id] = _subst_pure(canon(fi, st.value, inline=False), {k: v for k, v in pl.items() if k not in ('theta',)})
-    try:
-        # angle
-        th = defs.get('theta')
-        b = matches('acos(_E)', th) if th is not None else None
+    Tn = cx.pname(0)
+    names = {Tn} | {k for k, v in pl.items() if isinstance(v, ast.Name) and v.id == Tn}
+    env0 = {k: ast.Name(id=Tn, ctx=ast.Load()) for k in names if k != Tn}
+    env0.update({k: v for k, v in pl.items() if k not in names and not isinstance(v, ast.Name)})
+    # ... and the aliases made inside the rotation arm itself (R = T)
+    for st in own_walk(f.node):
+        if isinstance(st, ast.If) and 'isrot(' in ast.unparse(st.test):
+            for a in st.body:
+                if isinstance(a, ast.Assign) and isinstance(a.targets[0], ast.Name) and isinstance(a.value, ast.Name) and a.value.id in names:
+                    names.add(a.targets[0].id)
+    me = _MatEval(Rm, name=frozenset(names))
+    paths = sl_eval(cx, stmts=blk, env=env0, with_conds=True)
+    if not paths:
+        run.error('R19: trlog general branch: no value return found')
+        return
+    cfg_ = CFG(f.node)
+    facts_ = must_facts(cfg_)
+
+    def sin_value(e):
+        """does the scalar expression e compose to sin(theta)?  norm(vex(M)) with M -> s * skew(w) (|w| = 1)"""
+        b = matches('norm(vex(_M))', e)
         if b is None:
-            run.error('R19: trlog general branch: theta is not acos(..): %s' % (src(th, 40) if th is not None else None))
-        else:
-            got = _unit_reduce(me.scalar(b['_E']))
-            if got == c:
-                run.holds(rule, f.key, 'log o exp: angle', 'acos argument composes with Rodrigues to cos(theta)', f=f)
-            else:
-                run.violation(rule, f.key, 'log o exp: angle', 'for R = I + sin(t) K + (1 - cos(t)) K^2 the acos argument %s composes to %s, not to '
-                              'cos(t): log(exp(S)) does not return the rotation angle of S' % (src(b['_E'], 40), got), f=f)
-        # axis
-        sk = None
-        skname = None
-        for nm_, v in defs.items():
-            bb = matches('_N / sin(theta)', v)
-            if bb is not None:
-                sk, skname = bb['_N'], nm_
-        if sk is None:
-            run.error('R19: trlog general branch: no `<matrix> / sin(theta)` definition of the unit skew matrix')
-        else:
-            # the division by sin(theta) is reached only where theta is neither 0 nor pi: the identity test and the half-turn test
-            # trace(R) = -1 have both failed on every path to it
-            from ..cfg import CFG, must_facts
-            cfg_ = CFG(f.node)
-            facts_ = must_facts(cfg_)
-            dn = None
-            for st in blk:
-                if isinstance(st, ast.Assign) and isinstance(st.targets[0], ast.Name) and st.targets[0].id == skname:
-                    dn = cfg_.node_of(st)
-            if dn is not None:
-                fs_ = [(fc[1], _subst_pure(canon(fi, fc[2].ast, inline=False), pl)) for fc in facts_.get(dn.id, frozenset())]
-                not_eye = any((not pol) and matches('iseye(_R)', e) is not None for (pol, e) in fs_)
-                half = [e for (pol, e) in fs_ if (not pol) and any(matches(p_, e) is not None for p_ in
-                                                                   ('abs(trace(_R) + 1) < _T', 'abs(1 + trace(_R)) < _T', 'abs(_R.trace() + 1) < _T', 'trace(_R) + 1 < _T',
-                                                                    'isclose(trace(_R), -1, *_A)'))]
-                tr_tests = [e for (pol, e) in fs_ if (not pol) and 'trace' in ast.unparse(e)]
-                if not_eye and half:
-                    run.holds(rule, f.key, 'log: division by sin(theta) guarded', 'reached only after the identity test and the half-turn test %s failed' % src(half[0], 40), f=f)
-                elif not half:
-                    run.violation(rule, f.key, 'log: division by sin(theta) guarded', 'the general branch divides by sin(theta) with theta = acos((trace(R) - 1) / 2), '
-                                  'but no test on its paths excludes the half turn trace(R) = -1 (sin(theta) = 0)%s: at a rotation by pi the result is rounding '
-                                  'noise divided by ~1e-16' % ((': the test %s is not of the form |trace(R) + 1| < tol' % src(tr_tests[0], 40)) if tr_tests else ''), f=f)
+            return None
+        m = me.ev(b['_M'])
+        return all(_unit_reduce(m[i][j]) == s * K[i][j] for i in range(3) for j in range(3))
+
+    n_div = 0
+    try:
+        for (ret, val, conds) in paths:
+            v = val
+            b = matches('vex(_X)', v)
+            if b is not None:
+                v = b['_X']
+            # flatten the product: numerators / denominators
+            nums, dens = [], []
+
+            def flat(e, inv=False):
+                if isinstance(e, ast.BinOp) and isinstance(e.op, ast.Mult):
+                    flat(e.left, inv)
+                    flat(e.right, inv)
+                elif isinstance(e, ast.BinOp) and isinstance(e.op, ast.Div):
+                    flat(e.left, inv)
+                    flat(e.right, not inv)
                 else:
-                    run.violation(rule, f.key, 'log: division by sin(theta) guarded', 'the general branch divides by sin(theta) without having excluded the identity '
-                                  '(theta = 0)', f=f)
-            m = me.ev(sk)
+                    (dens if inv else nums).append(e)
+            flat(v)
+            ths = [x for x in nums if matches('acos(_E)', x) is not None or matches('atan2(_S, _E)', x) is not None]
+            cden = [x for x in dens if isinstance(x, ast.Constant)]
+            vden = [x for x in dens if not isinstance(x, ast.Constant)]
+            mats = [x for x in nums if x not in ths and not isinstance(x, ast.Constant)]
+            cnum = [x for x in nums if isinstance(x, ast.Constant)]
+            if len(ths) != 1 or len(mats) != 1 or len(vden) > 1:
+                run.error('R19: trlog general branch: the return %s is not (matrix / divisor) * angle' % src(ret.value, 50))
+                continue
+            TH, N = ths[0], mats[0]
+            for x in cden:
+                N = ast.BinOp(left=N, op=ast.Div(), right=x)
+            for x in cnum:
+                N = ast.BinOp(left=N, op=ast.Mult(), right=x)
+            b = {'_D': vden[0]} if vden else None
+            undivided = None if vden else {'_N': N, '_TH': TH}
+            ta = matches('acos(_E)', TH)
+            tb = matches('atan2(_S, _E)', TH)
+            E = (ta or tb)['_E']
+            if tb is not None and sin_value(E):
+                # atan2(cosine, sine): the arguments are exchanged
+                run.violation(rule, f.key, 'log o exp: angle', 'atan2 is given the norm of the antisymmetric part (sin(theta)) as its SECOND argument: '
+                              'the angle returned is pi/2 - theta', f=f, node=ret)
+                continue
+            got = _unit_reduce(me.scalar(E))
+            if got == c:
+                run.holds(rule, f.key, 'log o exp: angle', 'the cosine argument composes with Rodrigues to cos(theta)', f=f, node=ret)
+            else:
+                run.violation(rule, f.key, 'log o exp: angle', 'for R = I + sin(t) K + (1 - cos(t)) K^2 the cosine argument %s composes to %s, not to '
+                              'cos(t): log(exp(S)) does not return the rotation angle of S' % (src(E, 40), got), f=f, node=ret)
+            if tb is not None:
+                sv = sin_value(tb['_S'])
+                if sv is None:
+                    run.error('R19: trlog general branch: the sine argument %s of atan2 is not norm(vex(..))' % src(tb['_S'], 40))
+                elif not sv:
+                    run.violation(rule, f.key, 'log o exp: angle (sine)', 'the first argument of atan2, %s, does not compose with Rodrigues to '
+                                  'sin(theta) = |vex(sin(theta) skew(w))|' % src(tb['_S'], 40), f=f, node=ret)
+                else:
+                    run.holds(rule, f.key, 'log o exp: angle (sine)', 'norm of the antisymmetric part composes to sin(theta)', f=f, node=ret)
+            m = me.ev(N)
             bad = [(i, j) for i in range(3) for j in range(3) if _unit_reduce(m[i][j]) != s * K[i][j]]
             if not bad:
-                run.holds(rule, f.key, 'log o exp: axis', '%s composes with Rodrigues to sin(theta) * skew(w)' % src(sk, 30), f=f)
+                run.holds(rule, f.key, 'log o exp: axis', '%s composes with Rodrigues to sin(theta) * skew(w)' % src(N, 30), f=f, node=ret)
             else:
-                i, j = bad[0]
+                i_, j_ = bad[0]
                 run.violation(rule, f.key, 'log o exp: axis', 'for R = I + sin(t) K + (1 - cos(t)) K^2 the numerator %s composes to %s at [%d,%d], not to '
-                              'sin(t) * K[%d,%d] = %s: log(exp(S)) does not return S' % (src(sk, 30), _unit_reduce(m[i][j]), i, j, i, j, s * K[i][j]), f=f)
-            # returns: skw * theta / vex(skw * theta)
-            # locals of the block are substituted in order (S = skw * theta), the angle and the unit skew matrix stay atomic
-            env = {k: v for k, v in pl.items() if k not in ('theta', skname)}
-            for st in blk:
-                if isinstance(st, ast.Assign) and isinstance(st.targets[0], ast.Name) and st.targets[0].id not in ('theta', skname):
-                    env[st.targets[0].id] = _subst_pure(canon(fi, st.value, inline=False), env)
-            rets = [_subst_pure(canon(fi, r.value, inline=False), env) for st in blk for r in ast.walk(st) if isinstance(r, ast.Return) and r.value is not None]
-            nm = Normaliser()
-            nm.scalars = {'theta'}
-            want = nm.poly(parse_expr('%s * theta' % skname))
-            ok = rets and all(nm.poly(e) == want or (matches('vex(_X)', e) is not None and nm.poly(matches('vex(_X)', e)['_X']) == want) for e in rets)
-            (run.holds if ok else run.violation)(rule, f.key, 'log o exp: result', 'returns (unit skew matrix) * theta' if ok else
-                                                 'the general branch does not return %s * theta: %s' % (skname, [src(e, 30) for e in rets]), f=f)
+                              'sin(t) * K[%d,%d] = %s: log(exp(S)) does not return S' % (src(N, 30), _unit_reduce(m[i_][j_]), i_, j_, i_, j_, s * K[i_][j_]), f=f, node=ret)
+            # guards at this return
+            rn = cfg_.node_of(ret)
+            fs_ = [(fc[1], _Subst0(env0).visit(canon(fi, fc[2].ast, inline=False))) for fc in facts_.get(rn.id, frozenset())] if rn is not None else []
+            half = [e for (pol, e) in fs_ if (not pol) and any(matches(p_, e) is not None for p_ in
+                                                               ('abs(trace(_R) + 1) < _T', 'abs(1 + trace(_R)) < _T', 'abs(_R.trace() + 1) < _T', 'trace(_R) + 1 < _T',
+                                                                'isclose(trace(_R), -1, *_A)'))]
+            tr_tests = [e for (pol, e) in fs_ if (not pol) and 'trace' in ast.unparse(e)]
+            if undivided is not None:
+                # the path on which the divisor was found to be zero: N is the zero matrix there, the product is the zero logarithm
+                zero_known = tb is not None and any((not pol) and any(matches(p_, ce) is not None and ast.dump(matches(p_, ce)['_D']) in (ast.dump(tb['_S']), ast.dump(TH))
+                                                   for p_ in ('_D > 0', '_D != 0', '_D > _T', 'abs(_D) > _T')) for (ce, pol) in conds)
+                if zero_known:
+                    run.holds(rule, f.key, 'log: zero divisor path', 'the antisymmetric part is returned undivided only where its norm is zero', f=f, node=ret)
+                else:
+                    run.violation(rule, f.key, 'log: zero divisor path', 'the antisymmetric part %s is multiplied by the angle without being '
+                                  'normalised: the result is sin(theta) * theta * skew(w), not theta * skew(w)' % src(N, 30), f=f, node=ret)
+                continue
+            n_div += 1
+            D = b['_D']
+            d_is_sin = matches('sin(_X)', D) is not None and ast.dump(matches('sin(_X)', D)['_X']) == ast.dump(TH)
+            d_is_s = tb is not None and ast.dump(D) == ast.dump(tb['_S'])
+            if not (d_is_sin or d_is_s):
+                sv = sin_value(D)
+                if not sv:
+                    run.violation(rule, f.key, 'log o exp: result', 'the general branch divides %s by %s, which is neither sin(angle) nor the norm of the '
+                                  'antisymmetric part: the result is not theta * skew(w)' % (src(N, 30), src(D, 30)), f=f, node=ret)
+                    continue
+            run.holds(rule, f.key, 'log o exp: result', 'returns (antisymmetric part / sin(theta)) * theta', f=f, node=ret)
+            # a test of the divisor, of the angle or of the sine it was computed from: each is zero exactly when the others are
+            tested = [ast.dump(D), ast.dump(TH)] + ([ast.dump(tb['_S'])] if tb is not None else [])
+            direct = any(pol and any(matches(p_, ce) is not None and ast.dump(matches(p_, ce)['_D']) in tested
+                                     for p_ in ('_D > 0', '_D != 0', '_D > _T', 'abs(_D) > _T', '_D >= _T')) for (ce, pol) in conds)
+            if not half:
+                run.violation(rule, f.key, 'log: division by sin(theta) guarded', 'the general branch divides by sin(theta), '
+                              'but no test on its paths excludes the half turn trace(R) = -1 (sin(theta) = 0)%s: at a rotation by pi the result is rounding '
+                              'noise divided by ~1e-16' % ((': the test %s is not of the form |trace(R) + 1| < tol' % src(tr_tests[0], 40)) if tr_tests else ''), f=f, node=ret)
+            elif direct:
+                run.holds(rule, f.key, 'log: division by sin(theta) guarded', 'reached only after the half-turn test %s failed and under a test of the divisor itself'
+                          % src(half[0], 40), f=f, node=ret)
+            elif ta is not None:
+                run.violation(rule, f.key, 'log: division by sin(theta) guarded', 'the general branch divides by sin(theta) with theta = acos(%s); the identity test '
+                              'excludes |R - I| < 10 eps only, but the cosine rounds to exactly 1 -- theta = 0 and the division is 0 / 0 = nan -- for every '
+                              'rotation angle below ~1.5e-8 (e.g. trlog(trexp([0, 0, 1e-9]))): no test of theta or of the divisor itself dominates the '
+                              'division' % src(E, 30), f=f, node=ret)
+            else:
+                run.violation(rule, f.key, 'log: division by sin(theta) guarded', 'the general branch divides by %s without a test that it is non-zero '
+                              '(it is exactly 0 for a symmetric R that is not within 10 eps of the identity)' % src(D, 30), f=f, node=ret)
+        if n_div == 0:
+            run.error('R19: trlog general branch: no path divides the antisymmetric part by the sine')
     except Unrecognised as ex:
         run.error('R19: trlog general branch unrecognised: %s' % ex)
+
+
+class _Subst0(ast.NodeTransformer):
+    def __init__(self, env):
+        self.env = env
+
+    def visit_Name(self, n):
+        if isinstance(n.ctx, ast.Load) and n.id in self.env:
+            import copy
+            return copy.deepcopy(self.env[n.id])
+        return n
 
 
 # ------------------------------------------------------------------------------------------------ (c) twist / matrix pairs
